@@ -73,10 +73,16 @@ def block_for(addr, v):
     return v
 
 
+def compile_model(fam):
+    if fam.get('cycles'):
+        return W.compile_inmem(dict(fam['spec'], calc={'iterate': True, 'count': 200, 'delta': 1e-9}), cycles=True)
+    return W.compile_inmem(fam['spec'])
+
+
 def run_config(fam, I, O, warm, persist, depth, tmp, acc, deps):
     """returns number of histories explored"""
     spec = fam['spec']
-    base = dict(kind='trim', wb=fam['name'], fam={k: fam[k] for k in ('name', 'spec', 'ranges', 'unbounded', 'inputs', 'cells')},
+    base = dict(kind='trim', wb=fam['name'], fam={k: fam.get(k) for k in ('name', 'spec', 'ranges', 'unbounded', 'inputs', 'cells', 'cycles')},
                 inputs=list(I), outputs=list(O), warm=warm, persist=persist,
                 range_input=any(':' in i for i in I), buried_input=any(i in W.formula_cells(spec) for i in I))
     out_cells = [c for o in O for c in cells_of(o)]
@@ -92,7 +98,7 @@ def run_config(fam, I, O, warm, persist, depth, tmp, acc, deps):
     for hist in hists:
         # ---------------- trimmed model
         try:
-            m = W.compile_inmem(spec)
+            m = compile_model(fam)
             if warm:
                 for o in O:
                     m.evaluate(o)
@@ -119,7 +125,7 @@ def run_config(fam, I, O, warm, persist, depth, tmp, acc, deps):
                           f"{type(exc).__name__}: {str(exc)[:200]}")
             return n
         # ---------------- untrimmed reference
-        r = W.compile_inmem(spec)
+        r = compile_model(fam)
         for o in O:
             try:
                 r.evaluate(o)
@@ -185,7 +191,8 @@ def run_config(fam, I, O, warm, persist, depth, tmp, acc, deps):
                     ov = ('exc', type(exc).__name__, str(exc)[:160])
                 acc.add('transitions')
                 vals.append(ev)
-                if ev[0] == 'ok' and (ov[0] != 'ok' or not W.veq(ov[1], ev[1])):
+                same = (ov[0] == 'ok' and (W.vclose(ov[1], ev[1], rel=0, abs_=1e-6) if fam.get('cycles') else W.veq(ov[1], ev[1])))
+                if ev[0] == 'ok' and not same:
                     bad = (o, ov, ev)
                     break
             if bad:
@@ -247,8 +254,20 @@ def configs_for(fam, thorough):
     return cfgs
 
 
+def cycle_family():
+    S = family.S
+    out = []
+    for name, cells, inputs in (
+            ('cycle_feed', {'A1': 2, 'B1': '=0.5*B2+1', 'B2': '=0.5*B1+2', 'C1': '=A1+B1', 'D1': '=C1*2'}, ['S!A1']),
+            ('cycle_on_input', {'A1': 2, 'B1': '=0.5*B2+A1', 'B2': '=0.25*B1+2', 'C1': '=B1+B2', 'E1': 7, 'D1': '=C1+E1'}, ['S!A1', 'S!E1'])):
+        spec = S(cells)
+        out.append(dict(name=name, spec=spec, ranges=[], unbounded=[], inputs=inputs, cells=W.all_cells(spec), tags=['cycles'],
+                        cycles=True))
+    return out
+
+
 def run(ctx):
-    fams = family.curated()
+    fams = family.curated() + cycle_family()
     jobs = []
     for f in fams:
         cfgs = configs_for(f, ctx.thorough)
